@@ -128,8 +128,17 @@ Result == IF IsNil THEN <<>>
 \* termination: every run of append over this universe finishes within MaxSteps loop iterations
 Terminates == steps <= MaxSteps
 Allowed == {"rootReachedButListNotEmpty/explainedByLinkMemoisation", "traversedSymlinkNotCovered/explainedByLinkMemoisation",
-            "finalLocationNotCovered/explainedByLinkMemoisation"}
+            "finalLocationNotCovered/explainedByLinkMemoisation",
+            \* the second recorded finding (lexical ".." after a component that is a symlink; thorough scope only: it needs
+            \* a target like a/../b)
+            "rootReachedButListNotEmpty/explainedByLexicalDotDot", "traversedSymlinkNotCovered/explainedByLexicalDotDot",
+            "finalLocationNotCovered/explainedByLexicalDotDot", "emptyListAlthoughRootNotReached/explainedByLexicalDotDot"}
 Judged == FollowClauses(T, reqs, Result, IsNil, TRUE)
+\* non-vacuity of the second explanation (must be violated in the thorough scope: configuration _lexwitness)
+NeverLexExplained == phase = "done" => ~\E c \in Judged : c \in {"finalLocationNotCovered/explainedByLexicalDotDot",
+                                                                   "emptyListAlthoughRootNotReached/explainedByLexicalDotDot",
+                                                                   "traversedSymlinkNotCovered/explainedByLexicalDotDot",
+                                                                   "rootReachedButListNotEmpty/explainedByLexicalDotDot"}
 \* the result satisfies the property layer, up to the recorded known finding (link memoisation)
 ResultOK == phase = "done" => Judged \subseteq Allowed
 \* non-vacuity witnesses (checked as "must be violated" in a separate config)
